@@ -11401,9 +11401,11 @@ class Use_Stmt(StmtBase):  # pylint: disable=invalid-name
                                 only_list.append(
                                     (child.children[1].string, child.children[2].string)
                                 )
-                        elif isinstance(child, Generic_Spec):
+                        elif isinstance(child, (Generic_Spec, Dtio_Generic_Spec)):
                             # For now we ignore anything other than symbol names
-                            # and this includes operators (TODO #379).
+                            # and this includes operators (TODO #379) and
+                            # defined I/O (which is an alternative of
+                            # Generic_Spec but not a subclass of it).
                             pass
                         else:
                             raise InternalError(
